@@ -33,6 +33,9 @@ def older_spec(v, sa, sb):
         return ('l', [('s', 1), ('s', 2), ('s', 3)], sa)
     if v == 2:
         return ('m', [('w', ('s', 1, sa)), ('y', ('s', 2, sb)), ('n', ('m', [('w', ('s', 5))], None))], None)
+    if v == 3:
+        # falsy leaves and a list that inherits its mode from the newer mapping's tag
+        return ('m', [('l', ('l', [('s', 1), ('s', 2)], sa)), ('e', ('s', 0, sb)), ('f', ('s', 3)), ('h', ('s', '', None, "''"))], None)
     raise ValueError(v)
 
 
@@ -49,6 +52,8 @@ def newer_spec(v, sn):
         return ('m', [], sn)
     if v == 5:
         return ('vd',)
+    if v == 6:
+        return ('m', [('l', ('l', [('s', 0)], None)), ('e', ('s', '', None, "''")), ('f', ('s', False, None, 'false')), ('h', ('s', None, None, 'null')), ('g', ('s', 0))], sn)
     raise ValueError(v)
 
 
@@ -159,8 +164,10 @@ def c04_clear(split, k):
 def _splits_delete(tier):
     out = []
     for prefix in range(len(PREFIXES)):
-        for older in range(3):
-            for newer in range(6):
+        for older in range(4):
+            for newer in range(7):
+                if (older == 3) != (newer == 6) and not (older == 3 and newer in (4, 5)):
+                    continue
                 if tier == 'quick' and prefix == 2:
                     continue
                 out.append({'prefix': prefix, 'older': older, 'newer': newer, 'third': False})
